@@ -90,6 +90,18 @@ def make_case(index, rng, tier):
             cfg = {"limit_request_field_size": 0, "limit_request_fields": rng.choice([1, 2, 3, 5])}
             size = rng.choice([9000, 17000, 20000, 26000, 40000])
             msgs[rng.randrange(len(msgs))] = b"GET /big HTTP/1.1\r\nHost: a\r\nX-Big: " + b"v" * size + b"\r\n\r\n"
+        if k == 5 and rng.randrange(2):
+            # a chunk-size line (with a long extension) or a trailer section around the cap that the small head limits imply for them
+            cfg = dict(rng.choice([{"limit_request_fields": 2, "limit_request_field_size": 40}, {"limit_request_fields": 3, "limit_request_field_size": 30},
+                                   {"limit_request_fields": 1, "limit_request_field_size": 0}]))
+            S_ = cfg["limit_request_field_size"] or 8190
+            cap = cfg["limit_request_fields"] * (S_ + 2) + 4
+            n_ = cap + rng.choice([-6, -3, -2, -1, 0, 1, 2, 3, 50])
+            if rng.randrange(2):
+                body = b"5;" + b"e" * max(0, n_ - 2) + b"\r\nhello\r\n0\r\n\r\n"
+            else:
+                body = b"5\r\nhello\r\n0\r\nX-T: " + b"t" * max(0, n_ - 5) + b"\r\n\r\n"
+            msgs[rng.randrange(len(msgs))] = b"POST /c HTTP/1.1\r\nHost: a\r\nTransfer-Encoding: chunked\r\n\r\n" + body
         if k == 0:
             # stray line terminators / blanks in front of a request line (start of the connection or after a body)
             i = rng.randrange(len(msgs))
